@@ -1,6 +1,6 @@
 (* C04 - a document missing a required property is rejected, at every depth.
    Statements only; every proof is `exact <lemma>`; Print Assumptions under each. *)
-From GJS Require Import Base Regex Schema GoType Gen Exec Valid ExecP GenP CoreP.
+From GJS Require Import Base Regex Schema GoType Gen Exec Valid ExecP GenP CoreP MethodP.
 
 (* an Unmarshal method whose validator list contains `required k` never accepts an object without k *)
 Theorem C04_method : forall decf zf dvf fs under vs kv k,
@@ -69,3 +69,11 @@ Example C04_example :
     is_ok (dec (fun _ _ => true) [] 20 t (JObj [([108]%N, JArr [JObj [([114]%N, JStr [120]%N)]])])) = true /\
     plain_object inner /\ mem [114]%N (c_required (s_con inner)) = true.
 Proof. eexists. eexists. split; [vm_compute; reflexivity|]. vm_compute. repeat split; try reflexivity; discriminate. Qed.
+
+(* both directions for a checks-only method: its presence checks pass iff every required key is present (and C02_struct_exact says the
+   object is then accepted iff, in addition, the present keys decode and the value checks pass) *)
+Theorem C04_exact : forall decf vs kv, forallb check_only vs = true ->
+  forallb (fun v => is_ok (before_step decf (raw_of vs kv) (JObj kv) v)) vs =
+  forallb (fun k => match lookup k kv with Some _ => true | None => false end) (required_of vs).
+Proof. exact before_checks_exact. Qed.
+Print Assumptions C04_exact.
